@@ -38,6 +38,7 @@ class FnSpec:
         self.harness = None
         self.harness_decls = None
         self.reachable = []
+        self.params = None     # expected names of the parameters after self ('-' = any): unnamed / renamed ones are renamed
         self.flags = []
         self.defines = []
         self.min_obligations = 0
@@ -283,6 +284,8 @@ def parse(u, path):
             cur.inputs += rest.replace(',', ' ').split()
         elif kw == 'optional':
             cur.optional = True
+        elif kw == 'params':
+            cur.params = rest.split()
         elif kw == 'nocheck':
             cur.check = False
         elif kw == 'nocover':
